@@ -25,9 +25,15 @@ theories/Gen/C07Consts.vos theories/Gen/C07Consts.vok theories/Gen/C07Consts.req
 theories/Gen/C07Consts_ok.vo theories/Gen/C07Consts_ok.glob theories/Gen/C07Consts_ok.v.beautified theories/Gen/C07Consts_ok.required_vo: theories/Gen/C07Consts_ok.v theories/Model/Lru.vo theories/Gen/C07Consts.vo
 theories/Gen/C07Consts_ok.vio: theories/Gen/C07Consts_ok.v theories/Model/Lru.vio theories/Gen/C07Consts.vio
 theories/Gen/C07Consts_ok.vos theories/Gen/C07Consts_ok.vok theories/Gen/C07Consts_ok.required_vos: theories/Gen/C07Consts_ok.v theories/Model/Lru.vos theories/Gen/C07Consts.vos
+theories/Gen/C12Window.vo theories/Gen/C12Window.glob theories/Gen/C12Window.v.beautified theories/Gen/C12Window.required_vo: theories/Gen/C12Window.v theories/Model/CompilerCache.vo
+theories/Gen/C12Window.vio: theories/Gen/C12Window.v theories/Model/CompilerCache.vio
+theories/Gen/C12Window.vos theories/Gen/C12Window.vok theories/Gen/C12Window.required_vos: theories/Gen/C12Window.v theories/Model/CompilerCache.vos
 theories/Gen/C18Consts.vo theories/Gen/C18Consts.glob theories/Gen/C18Consts.v.beautified theories/Gen/C18Consts.required_vo: theories/Gen/C18Consts.v 
 theories/Gen/C18Consts.vio: theories/Gen/C18Consts.v 
 theories/Gen/C18Consts.vos theories/Gen/C18Consts.vok theories/Gen/C18Consts.required_vos: theories/Gen/C18Consts.v 
+theories/Gen/C18Locks.vo theories/Gen/C18Locks.glob theories/Gen/C18Locks.v.beautified theories/Gen/C18Locks.required_vo: theories/Gen/C18Locks.v theories/Model/LockOrder.vo
+theories/Gen/C18Locks.vio: theories/Gen/C18Locks.v theories/Model/LockOrder.vio
+theories/Gen/C18Locks.vos theories/Gen/C18Locks.vok theories/Gen/C18Locks.required_vos: theories/Gen/C18Locks.v theories/Model/LockOrder.vos
 theories/Model/ArgTypes.vo theories/Model/ArgTypes.glob theories/Model/ArgTypes.v.beautified theories/Model/ArgTypes.required_vo: theories/Model/ArgTypes.v 
 theories/Model/ArgTypes.vio: theories/Model/ArgTypes.v 
 theories/Model/ArgTypes.vos theories/Model/ArgTypes.vok theories/Model/ArgTypes.required_vos: theories/Model/ArgTypes.v 
@@ -88,6 +94,9 @@ theories/Model/KeyEnc.vos theories/Model/KeyEnc.vok theories/Model/KeyEnc.requir
 theories/Model/LineMarker.vo theories/Model/LineMarker.glob theories/Model/LineMarker.v.beautified theories/Model/LineMarker.required_vo: theories/Model/LineMarker.v theories/Base/Sx.vo theories/Gen/C04Consts.vo theories/Model/PpPaths.vo theories/Model/TimeMacro.vo theories/Model/PpCache.vo
 theories/Model/LineMarker.vio: theories/Model/LineMarker.v theories/Base/Sx.vio theories/Gen/C04Consts.vio theories/Model/PpPaths.vio theories/Model/TimeMacro.vio theories/Model/PpCache.vio
 theories/Model/LineMarker.vos theories/Model/LineMarker.vok theories/Model/LineMarker.required_vos: theories/Model/LineMarker.v theories/Base/Sx.vos theories/Gen/C04Consts.vos theories/Model/PpPaths.vos theories/Model/TimeMacro.vos theories/Model/PpCache.vos
+theories/Model/LockOrder.vo theories/Model/LockOrder.glob theories/Model/LockOrder.v.beautified theories/Model/LockOrder.required_vo: theories/Model/LockOrder.v 
+theories/Model/LockOrder.vio: theories/Model/LockOrder.v 
+theories/Model/LockOrder.vos theories/Model/LockOrder.vok theories/Model/LockOrder.required_vos: theories/Model/LockOrder.v 
 theories/Model/Lru.vo theories/Model/Lru.glob theories/Model/Lru.v.beautified theories/Model/Lru.required_vo: theories/Model/Lru.v theories/Base/Sx.vo
 theories/Model/Lru.vio: theories/Model/Lru.v theories/Base/Sx.vio
 theories/Model/Lru.vos theories/Model/Lru.vok theories/Model/Lru.required_vos: theories/Model/Lru.v theories/Base/Sx.vos
@@ -220,6 +229,9 @@ theories/Proofs/KeyEncSpec.vos theories/Proofs/KeyEncSpec.vok theories/Proofs/Ke
 theories/Proofs/LineMarker.vo theories/Proofs/LineMarker.glob theories/Proofs/LineMarker.v.beautified theories/Proofs/LineMarker.required_vo: theories/Proofs/LineMarker.v theories/Base/Sx.vo theories/Gen/C04Consts.vo theories/Model/PpPaths.vo theories/Model/TimeMacro.vo theories/Model/PpCache.vo theories/Model/LineMarker.vo theories/Proofs/TimeMacro.vo
 theories/Proofs/LineMarker.vio: theories/Proofs/LineMarker.v theories/Base/Sx.vio theories/Gen/C04Consts.vio theories/Model/PpPaths.vio theories/Model/TimeMacro.vio theories/Model/PpCache.vio theories/Model/LineMarker.vio theories/Proofs/TimeMacro.vio
 theories/Proofs/LineMarker.vos theories/Proofs/LineMarker.vok theories/Proofs/LineMarker.required_vos: theories/Proofs/LineMarker.v theories/Base/Sx.vos theories/Gen/C04Consts.vos theories/Model/PpPaths.vos theories/Model/TimeMacro.vos theories/Model/PpCache.vos theories/Model/LineMarker.vos theories/Proofs/TimeMacro.vos
+theories/Proofs/LockOrder.vo theories/Proofs/LockOrder.glob theories/Proofs/LockOrder.v.beautified theories/Proofs/LockOrder.required_vo: theories/Proofs/LockOrder.v theories/Model/LockOrder.vo
+theories/Proofs/LockOrder.vio: theories/Proofs/LockOrder.v theories/Model/LockOrder.vio
+theories/Proofs/LockOrder.vos theories/Proofs/LockOrder.vok theories/Proofs/LockOrder.required_vos: theories/Proofs/LockOrder.v theories/Model/LockOrder.vos
 theories/Proofs/Lru.vo theories/Proofs/Lru.glob theories/Proofs/Lru.v.beautified theories/Proofs/Lru.required_vo: theories/Proofs/Lru.v theories/Base/Sx.vo theories/Model/Lru.vo
 theories/Proofs/Lru.vio: theories/Proofs/Lru.v theories/Base/Sx.vio theories/Model/Lru.vio
 theories/Proofs/Lru.vos theories/Proofs/Lru.vok theories/Proofs/Lru.required_vos: theories/Proofs/Lru.v theories/Base/Sx.vos theories/Model/Lru.vos
@@ -322,6 +334,9 @@ theories/Properties/C17.vos theories/Properties/C17.vok theories/Properties/C17.
 theories/Properties/C18.vo theories/Properties/C18.glob theories/Properties/C18.v.beautified theories/Properties/C18.required_vo: theories/Properties/C18.v theories/Base/Sx.vo theories/Gen/C18Consts.vo theories/Model/Scheduler.vo theories/Proofs/Scheduler.vo
 theories/Properties/C18.vio: theories/Properties/C18.v theories/Base/Sx.vio theories/Gen/C18Consts.vio theories/Model/Scheduler.vio theories/Proofs/Scheduler.vio
 theories/Properties/C18.vos theories/Properties/C18.vok theories/Properties/C18.required_vos: theories/Properties/C18.v theories/Base/Sx.vos theories/Gen/C18Consts.vos theories/Model/Scheduler.vos theories/Proofs/Scheduler.vos
+theories/Properties/C18Locks.vo theories/Properties/C18Locks.glob theories/Properties/C18Locks.v.beautified theories/Properties/C18Locks.required_vo: theories/Properties/C18Locks.v theories/Model/LockOrder.vo theories/Gen/C18Consts.vo theories/Gen/C18Locks.vo theories/Model/Scheduler.vo theories/Proofs/LockOrder.vo
+theories/Properties/C18Locks.vio: theories/Properties/C18Locks.v theories/Model/LockOrder.vio theories/Gen/C18Consts.vio theories/Gen/C18Locks.vio theories/Model/Scheduler.vio theories/Proofs/LockOrder.vio
+theories/Properties/C18Locks.vos theories/Properties/C18Locks.vok theories/Properties/C18Locks.required_vos: theories/Properties/C18Locks.v theories/Model/LockOrder.vos theories/Gen/C18Consts.vos theories/Gen/C18Locks.vos theories/Model/Scheduler.vos theories/Proofs/LockOrder.vos
 theories/Properties/C19.vo theories/Properties/C19.glob theories/Properties/C19.v.beautified theories/Properties/C19.required_vo: theories/Properties/C19.v theories/Base/Sx.vo theories/Model/Paths.vo theories/Proofs/Paths.vo
 theories/Properties/C19.vio: theories/Properties/C19.v theories/Base/Sx.vio theories/Model/Paths.vio theories/Proofs/Paths.vio
 theories/Properties/C19.vos theories/Properties/C19.vok theories/Properties/C19.required_vos: theories/Properties/C19.v theories/Base/Sx.vos theories/Model/Paths.vos theories/Proofs/Paths.vos
@@ -364,9 +379,9 @@ theories/Run/C10.vos theories/Run/C10.vok theories/Run/C10.required_vos: theorie
 theories/Run/C11.vo theories/Run/C11.glob theories/Run/C11.v.beautified theories/Run/C11.required_vo: theories/Run/C11.v theories/Base/Sx.vo theories/Model/Client.vo
 theories/Run/C11.vio: theories/Run/C11.v theories/Base/Sx.vio theories/Model/Client.vio
 theories/Run/C11.vos theories/Run/C11.vok theories/Run/C11.required_vos: theories/Run/C11.v theories/Base/Sx.vos theories/Model/Client.vos
-theories/Run/C12.vo theories/Run/C12.glob theories/Run/C12.v.beautified theories/Run/C12.required_vo: theories/Run/C12.v theories/Base/Sx.vo theories/Model/CompilerCache.vo
-theories/Run/C12.vio: theories/Run/C12.v theories/Base/Sx.vio theories/Model/CompilerCache.vio
-theories/Run/C12.vos theories/Run/C12.vok theories/Run/C12.required_vos: theories/Run/C12.v theories/Base/Sx.vos theories/Model/CompilerCache.vos
+theories/Run/C12.vo theories/Run/C12.glob theories/Run/C12.v.beautified theories/Run/C12.required_vo: theories/Run/C12.v theories/Base/Sx.vo theories/Model/CompilerCache.vo theories/Gen/C12Window.vo
+theories/Run/C12.vio: theories/Run/C12.v theories/Base/Sx.vio theories/Model/CompilerCache.vio theories/Gen/C12Window.vio
+theories/Run/C12.vos theories/Run/C12.vok theories/Run/C12.required_vos: theories/Run/C12.v theories/Base/Sx.vos theories/Model/CompilerCache.vos theories/Gen/C12Window.vos
 theories/Run/C13.vo theories/Run/C13.glob theories/Run/C13.v.beautified theories/Run/C13.required_vo: theories/Run/C13.v theories/Base/Sx.vo theories/Model/DistStatus.vo theories/Model/DistFallback.vo theories/Model/DistArgs.vo theories/Model/DistHistory.vo
 theories/Run/C13.vio: theories/Run/C13.v theories/Base/Sx.vio theories/Model/DistStatus.vio theories/Model/DistFallback.vio theories/Model/DistArgs.vio theories/Model/DistHistory.vio
 theories/Run/C13.vos theories/Run/C13.vok theories/Run/C13.required_vos: theories/Run/C13.v theories/Base/Sx.vos theories/Model/DistStatus.vos theories/Model/DistFallback.vos theories/Model/DistArgs.vos theories/Model/DistHistory.vos
